@@ -436,6 +436,7 @@ bool consume(int);
 struct type *mktype(enum typekind, enum typeprop);
 struct type *mkpointertype(struct type *, enum typequal);
 struct type *mkarraytype(struct type *, enum typequal, unsigned long long);
+struct type *unsharearray(struct type *);
 
 bool typecompatible(struct type *, struct type *);
 bool typesame(struct type *, struct type *);
